@@ -223,6 +223,36 @@ func (f *g2lFn) call(b *binds, e *ast.CallExpr) string {
 		}
 	}
 	if sel, ok := e.Fun.(*ast.SelectorExpr); ok {
+		if fld, ok := f.u.embedGet[sel.Sel.Name]; ok && len(e.Args) == 0 {
+			rt := f.typeOf(sel.X)
+			if pt, ok := rt.(*types.Pointer); ok {
+				rt = pt.Elem()
+			}
+			if n, ok := rt.(*types.Named); ok {
+				if _, ok := f.u.sumTypes[n.Obj().Name()]; ok {
+					return "(" + n.Obj().Name() + "_" + fld + " " + f.expr(b, sel.X) + ")"
+				}
+				return "((" + f.expr(b, sel.X) + ")." + fld + ")"
+			}
+		}
+		if s, ok := f.p.info.Selections[sel]; ok && s.Kind() == types.MethodVal && len(s.Index()) == 2 {
+			// a method promoted from an embedded bytes.Buffer: p.Bytes(), p.Len()
+			rt := s.Recv()
+			if pt, ok := rt.(*types.Pointer); ok {
+				rt = pt.Elem()
+			}
+			if st, ok := rt.Underlying().(*types.Struct); ok && isBytesBuffer(st.Field(s.Index()[0]).Type()) {
+				buf := "((" + f.expr(b, sel.X) + ")." + leanIdent(st.Field(s.Index()[0]).Name()) + ")"
+				switch sel.Sel.Name {
+				case "Bytes", "String":
+					return buf
+				case "Len":
+					return "(len " + buf + ")"
+				}
+			}
+		}
+	}
+	if sel, ok := e.Fun.(*ast.SelectorExpr); ok {
 		if tv, ok := f.p.info.Types[sel.X]; ok && tv.Type != nil && isBytesBuffer(tv.Type) {
 			switch sel.Sel.Name {
 			case "String", "Bytes":
@@ -648,6 +678,8 @@ func (f *g2lFn) stmts(list []ast.Stmt, k kont) []string {
 		return f.switchStmt(s, rest)
 	case *ast.ForStmt:
 		return f.forStmt(s, rest)
+	case *ast.TypeSwitchStmt:
+		return f.typeSwitch(s, rest)
 	case *ast.RangeStmt:
 		return f.rangeStmt(s, rest)
 	case *ast.EmptyStmt:
@@ -779,6 +811,18 @@ func (f *g2lFn) assignedOuter(nodes []ast.Node, before token.Pos) []*types.Var {
 					if id, ok := sel.X.(*ast.Ident); ok {
 						if tv, ok := f.p.info.Types[id]; ok && tv.Type != nil && isBytesBuffer(tv.Type) && strings.HasPrefix(sel.Sel.Name, "Write") {
 							add(id)
+						}
+						// p.printf(…) / p.Truncate(n) write to the buffer embedded in p
+						if tv, ok := f.p.info.Types[id]; ok && tv.Type != nil {
+							rt := tv.Type
+							if pt, ok := rt.(*types.Pointer); ok {
+								rt = pt.Elem()
+							}
+							if n3, ok := rt.(*types.Named); ok {
+								if _, ok := f.u.printfTo[n3.Obj().Name()+"."+sel.Sel.Name]; ok || sel.Sel.Name == "Truncate" {
+									add(id)
+								}
+							}
 						}
 						// a call to an in-out method assigns to its receiver
 						if s, ok := f.p.info.Selections[sel]; ok && s.Kind() == types.MethodVal {
@@ -1244,6 +1288,33 @@ func (f *g2lFn) exprStmtCall(c *ast.CallExpr) ([]string, bool) {
 		return []string{}, true
 	}
 	if sel, ok := c.Fun.(*ast.SelectorExpr); ok {
+		if id, ok := sel.X.(*ast.Ident); ok {
+			rt := f.typeOf(id)
+			if pt, ok := rt.(*types.Pointer); ok {
+				rt = pt.Elem()
+			}
+			if n, ok := rt.(*types.Named); ok {
+				if fld, ok := f.u.printfTo[n.Obj().Name()+"."+sel.Sel.Name]; ok {
+					// p.printf(format, args…) appends the formatted text to the embedded buffer
+					txt := f.sprintf(&b, c)
+					return append(b.lines, fmt.Sprintf("let %s := { %s with %s := (%s).%s ++ %s }", f.name(id), f.name(id), fld, f.name(id), fld, txt)), true
+				}
+				if st, ok := n.Underlying().(*types.Struct); ok && sel.Sel.Name == "Truncate" && len(c.Args) == 1 {
+					for i := 0; i < st.NumFields(); i++ {
+						if st.Field(i).Embedded() && isBytesBuffer(st.Field(i).Type()) {
+							fld := leanIdent(st.Field(i).Name())
+							nn := f.expr(&b, c.Args[0])
+							t := f.fresh("t")
+							f.pure = false
+							return append(b.lines, fmt.Sprintf("let %s ← sliceTo (%s).%s %s", t, f.name(id), fld, nn),
+								fmt.Sprintf("let %s := { %s with %s := %s }", f.name(id), f.name(id), fld, t)), true
+						}
+					}
+				}
+			}
+		}
+	}
+	if sel, ok := c.Fun.(*ast.SelectorExpr); ok {
 		if id, ok := sel.X.(*ast.Ident); ok && isBytesBuffer(f.typeOf(id)) && len(c.Args) == 1 {
 			x := f.expr(&b, c.Args[0])
 			switch sel.Sel.Name {
@@ -1372,4 +1443,91 @@ func (f *g2lFn) defineClosure(name *ast.Ident, lit *ast.FuncLit) {
 	fmt.Fprintf(def, "def %s \x00ABSP\x00(fuel : Nat) %s : M %s := do\n%s\n", cl.lean, strings.Join(params, " "), full, indent(strings.Join(body, "\n"), 2))
 	f.loops = append(f.loops, def.String())
 	f.closures[f.p.info.Defs[name]] = cl
+}
+
+// typeSwitch: `switch x := e.(type) { case *T: … default: … }` over a configured sum type becomes a match
+func (f *g2lFn) typeSwitch(s *ast.TypeSwitchStmt, rest kont) []string {
+	var bind *ast.Ident
+	var subj ast.Expr
+	switch a := s.Assign.(type) {
+	case *ast.AssignStmt:
+		bind = a.Lhs[0].(*ast.Ident)
+		subj = a.Rhs[0].(*ast.TypeAssertExpr).X
+	case *ast.ExprStmt:
+		subj = a.X.(*ast.TypeAssertExpr).X
+	}
+	st := f.typeOf(subj)
+	sn, ok := st.(*types.Named)
+	if !ok {
+		f.bad(s, "type switch on %s", st)
+	}
+	variants, ok := f.u.sumTypes[sn.Obj().Name()]
+	if !ok {
+		f.bad(s, "type switch on %s (not a configured sum type)", sn.Obj().Name())
+	}
+	lines := []string{}
+	var b binds
+	x := f.expr(&b, subj)
+	lines = append(lines, b.lines...)
+	uses := 0
+	nodes := []ast.Node{}
+	for _, c := range s.Body.List {
+		cc := c.(*ast.CaseClause)
+		if f.falls(cc.Body) {
+			uses++
+		}
+		nodes = append(nodes, cc)
+	}
+	k := f.shareK(rest, uses+1, f.assignedOuter(nodes, s.Pos()), &lines)
+	arms := []string{}
+	covered := map[string]bool{}
+	var def *ast.CaseClause
+	for _, c := range s.Body.List {
+		cc := c.(*ast.CaseClause)
+		if cc.List == nil {
+			def = cc
+			continue
+		}
+		for _, te := range cc.List {
+			t := f.p.info.Types[te].Type
+			if pt, ok := t.(*types.Pointer); ok {
+				t = pt.Elem()
+			}
+			tn, ok := t.(*types.Named)
+			if !ok {
+				f.bad(te, "type switch case %s", show(te))
+			}
+			name := tn.Obj().Name()
+			covered[name] = true
+			v := "_"
+			if bind != nil {
+				// the per-clause variable object
+				if o := f.p.info.Implicits[cc]; o != nil {
+					v = f.varName(o)
+				}
+			}
+			body := f.stmts(cc.Body, k)
+			arms = append(arms, fmt.Sprintf("| %s.%s %s => %s", sn.Obj().Name(), name, v, f.paren(body)))
+		}
+	}
+	missing := false
+	for _, v := range variants {
+		if !covered[v] {
+			missing = true
+		}
+	}
+	if missing {
+		if def == nil {
+			arms = append(arms, "| _ => "+f.paren(k()))
+		} else {
+			pre := []string{}
+			if bind != nil {
+				if o := f.p.info.Implicits[def]; o != nil {
+					pre = append(pre, fmt.Sprintf("let %s := %s", f.varName(o), x))
+				}
+			}
+			arms = append(arms, "| _ => "+f.paren(append(pre, f.stmts(def.Body, k)...)))
+		}
+	}
+	return append(lines, "match "+x+" with\n"+strings.Join(arms, "\n"))
 }
